@@ -35,10 +35,15 @@
   the handed-over state is an assumption (C05 / C07). `CfgOk` is what a
   configuration has to satisfy: class ids < 8, ordered policy (all policies of the repository),
   tree size below 2^19 frames (the counter width of a local reservation) — `CfgOk.of_checks`.
+
+  * `single_row_updates_match_source` — the mask and the update closure of `Bitfield::toggle`
+    (orders 0..2) and the mask test of `Bitfield::is_zero` are re-derived from the Rust source on
+    every run (`tools/rs2lean.py`, `Gen/Toggle.lean`) and proved equal to the model's.
 -/
 import LLFreeV.Proofs.EndToEnd
 import LLFreeV.Proofs.CfgOk
 import LLFreeV.Proofs.ConcUpperThreads
+import LLFreeV.Proofs.GenToggle
 namespace LLFree.C02
 open LLFree
 
@@ -157,5 +162,21 @@ theorem new_then_history (c : Cfg) (ok : CfgOk c) (init : Init) (hinit : init = 
     (calls : List Call) (hvalid : ∀ x ∈ calls, x.valid c) (m : Mem) (hs : ShapeOk c m) (habs : ∀ s, SlotAbsent m s) :
     Runs m (do initProg c init; runCalls c calls) (fun _ m' => ∃ H', UpperInv0 c H' m') :=
   LLFree.new_then_history ok init hinit calls hvalid m hs habs
+
+/-- **The single-row bit updates of the model are those of the current source**: the mask and the
+    update closure of `Bitfield::toggle` for orders 0..2 (the step that claims or releases the bits
+    of a block inside one row — in particular for a targeted allocation) and the mask test of
+    `Bitfield::is_zero` are regenerated from `core/src/bitfield.rs` on every run (`Gen/Toggle.lean`)
+    and equal the model's: a block is claimed only if *all* its bits are free, released only if all
+    are set. -/
+theorem single_row_updates_match_source (bits sh : Nat) (hb : bits ≤ 64) (hs : sh < 64) (e mask : BitVec 64) (expected : Bool) :
+    Gen.B.toggleMask (BitVec.ofNat 64 bits) (BitVec.ofNat 64 sh) = bitMask bits sh ∧
+    Gen.B.toggleSmall e mask expected =
+      (if expected then (if e &&& mask = mask then some (e &&& ~~~mask) else none)
+       else (if e &&& mask = 0 then some (e ||| mask) else none)) ∧
+    Gen.B.isZeroMask (BitVec.ofNat 64 bits) (BitVec.ofNat 64 sh) = bitMask bits sh ∧
+    Gen.B.isZeroRow e mask = decide ((e &&& mask) = 0) :=
+  ⟨GenTree.toggleMask_eq bits sh hb hs, GenTree.toggleSmall_eq e mask expected, GenTree.isZeroMask_eq bits sh hb hs,
+    GenTree.isZeroRow_eq e mask⟩
 
 end LLFree.C02
